@@ -207,13 +207,13 @@ pub fn case_from_desc(desc: &str) -> Option<Case> {
     }
     let li = LKS.iter().position(|x| *x == lk)?;
     let mut bufs: Vec<usize> = (0..=p + 24).collect();
-    bufs.extend([4097, 4098, 70000, 100, 1000, 5000, 65535]);
+    bufs.extend([4097, 4098, 70000, 100, 1000, 5000, 65535, 65536, 65537, 65586, 69632]);
     Some(Case { pdu: pdu(p, pat), lk, pt: [0x0800u16, 0x86DD, 0xFFFF][(p + li) % 3], frag_id: fid, storage: st, bufs, desc: desc.to_string() })
 }
 
 pub fn run(tier: Tier) -> i32 {
     let rep = Report::new("C02", tier);
-    rep.set_rule("for each case (PDU length, content pattern, label kind incl. first fragment replaced by re-use, protocol type, fragment id, storage size) the graph sender-progress x real-receiver under 'offer buffer of size b' is explored to closure: small regime = every PDU length 0..=40 (thorough 0..=96) with the complete buffer alphabet 0..=p+24 plus 4097/4098/70000; medium regime = PDU lengths {100,255,256,257,300,513,1000,2049} with ~35 buffer sizes around the 8-bit boundary; large regime = PDUs needing fragmentation (4094..9000; thorough up to the 16-bit limit) with buffers {0..=16, 100, 1000, 4090..=4100, 5000, 65535, 70000}, states keyed by position with the receiver snapshot checked equal to the one determined by the position; every produced packet is fed to the real decap; liveness by a strictly decreasing rank for buffers >= 13; distinct = (call, status, buffer regime)");
+    rep.set_rule("for each case (PDU length, content pattern, label kind incl. first fragment replaced by re-use, protocol type, fragment id, storage size) the graph sender-progress x real-receiver under 'offer buffer of size b' is explored to closure: small regime = every PDU length 0..=40 (thorough 0..=96) with the complete buffer alphabet 0..=p+24 plus 4097/4098/65535/65536/65537/65586/69632/70000; medium regime = PDU lengths {100,255,256,257,300,513,1000,2049} with ~35 buffer sizes around the 8-bit boundary; large regime = PDUs needing fragmentation (4094..9000; thorough up to the 16-bit limit) with buffers {0..=16, 100, 1000, 4090..=4100, 5000, 65535, 70000}, states keyed by position with the receiver snapshot checked equal to the one determined by the position; every produced packet is fed to the real decap; liveness by a strictly decreasing rank for buffers >= 13; distinct = (call, status, buffer regime)");
     rep.assume("payload contents: 4 patterns (all contents of length <= 2 are swept by C01/C12); protocol types {0x0800, 0x86DD, 0xFFFF}; fragment ids {0, 1, 255} (all 256 for one PDU length)");
     small(&rep, tier);
     large(&rep, tier);
@@ -230,7 +230,7 @@ fn small(rep: &Report, tier: Tier) {
                 for storage in [p, p + 5] {
                     let pat = ((p + li + storage) % 4) as u8;
                     let mut bufs: Vec<usize> = (0..=p + 24).collect();
-                    bufs.extend([4097, 4098, 70000]);
+                    bufs.extend([4097, 4098, 65535, 65536, 65537, 65586, 69632, 70000]);
                     cases.push(Case { pdu: pdu(p, pat), lk, pt: [0x0800u16, 0x86DD, 0xFFFF][(p + li) % 3], frag_id: fid, storage, bufs, desc: format!("pdu_len={} pattern={} label={} frag_id={} storage={}", p, pat, lk.name(), fid, storage) });
                 }
             }
@@ -294,7 +294,7 @@ fn large(rep: &Report, tier: Tier) {
     let mut bufs: Vec<usize> = (0..=16).collect();
     bufs.extend([100, 1000]);
     bufs.extend(4090..=4100);
-    bufs.extend([5000, 65535, 70000]);
+    bufs.extend([5000, 65535, 65536, 65537, 65586, 66000, 69632, 69633, 70000]);
     let cases: Vec<(usize, Lk)> = ps.iter().flat_map(|&p| LKS.iter().map(move |&lk| (p, lk))).filter(|&(p, lk)| p + 2 + lk.label().wire_len() <= 65535 || matches!(lk, Lk::AfterSame(_))).collect();
     for (p, lk) in cases {
         if rep.over_time() {
